@@ -156,6 +156,7 @@ def check(F, rep, tier):
     ff = [x for x in F.find("template::functions::format_timestamp_function") if x.kind == "fn"]
     if rep.anchor("R17.3", "format_timestamp_function", ff):
         f = ff[0]; rep.fn_seen(f)
+        f = mir.inlined(F, f, depth=2)          # a `chrono_format_for(name)` helper is seen through
         # chrono_format = match format { "compact_date" => "%Y%m%d", ... }: constants assigned under str-eq guards
         tab = {}
         for bi, si, st in f.stmts():
@@ -166,6 +167,7 @@ def check(F, rep, tier):
         for p in ("compact_date", "compact_datetime"):
             got = parse_strftime(tab.get(p, "")) if p in tab else None
             if matches(got, WANT[p]): rep.ok("R17.3", "format_timestamp %s -> %r" % (p, tab[p]), nontrivial_key="tf" + p)
+            elif p not in tab: rep.undecided("R17.3", "template-compact-shape:" + p, "no chrono pattern assigned under a `== %r` test found in format_timestamp" % p, f.where())
             else: rep.bad("R17.3", "template-compact:" + p, "format_timestamp maps %s to %r, expected the same fields as the resolver (%s)" % (p, tab.get(p), WANT[p]), f.where())
     # ---- R17.5 source order: bumped_timestamp, else last_timestamp ----------------------------------------
     rv = F.fn("crate::version::zerv::components::Var::resolve_value")
